@@ -39,6 +39,10 @@ PS = "src/pyhf/patchset.py"
 UT = "src/pyhf/utils.py"
 
 
+# R1-R5 recognise one code shape each; R6 decides the same clauses from behaviour (see Ctx.defer)
+DEFER = [(["C17.R1", "C17.R2", "C17.R3", "C17.R4", "C17.R5"], ["C17.R6"])]
+
+
 def run(ctx):
     repo = ctx.repo
     cls = repo.cls(PS, "PatchSet")
@@ -303,6 +307,19 @@ def _semantic(ctx, rid, repo):
     def not_mine():
         raise NotHandled()
 
+    def unserialisable(v):
+        if isinstance(v, Obj) and v.name == "ndarray":
+            return True
+        if isinstance(v, dict):
+            return any(unserialisable(x) for x in v.values())
+        if isinstance(v, (list, tuple)):
+            return any(unserialisable(x) for x in v)
+        return False
+
+    def _raise_type_error():
+        from ..alg import _PyRaise
+        raise _PyRaise("TypeError")  # json.dumps on an object it cannot serialise
+
     class WsDict(dict):
         """pyhf.Workspace: a validated deep copy of the document it is constructed from."""
 
@@ -314,7 +331,7 @@ def _semantic(ctx, rid, repo):
         made = []
         ext = {
             "__strict__": True,
-            "dumps": lambda a, k: canon(a[0], k.get("sort_keys") is True),
+            "dumps": lambda a, k: canon(a[0], k.get("sort_keys") is True) if not unserialisable(a[0]) else _raise_type_error(),
             ".encode": lambda recv, a, k: recv if isinstance(recv, str) else not_mine(),
             ".hexdigest": lambda recv, a, k: recv.attrs["hex"] if isinstance(recv, Obj) and "hex" in recv.attrs else not_mine(),
             "Workspace": lambda a, k: WsDict(a[0]),
@@ -462,6 +479,25 @@ def _semantic(ctx, rid, repo):
                 ctx.holds(rid, f"{PS}::PatchSet.apply [foreign workspace]", "refused with PatchSetVerificationError")
             else:
                 ctx.violated(rid, psc.methods["apply"], "apply on a foreign workspace", f"raises {e.exc_name}")
+        # HISTORY: the object that was applied successfully is edited in place and applied again
+        try:
+            src["channels"][0]["samples"][0]["data"][0] = Poly.atom("n_edited_after_apply")
+            w.call_method(ps, "apply", [src, "p1"])
+            ctx.violated(rid, psc.methods["apply"], "apply after an in-place edit of a workspace applied before", "a workspace OBJECT that was verified by an earlier apply() is patched again without verification after its content changed: the patch lands on a background whose digest is not the recorded one")
+        except RaisedInFragment as e:
+            if e.exc_name.split(".")[-1] == "PatchSetVerificationError":
+                ctx.holds(rid, f"{PS}::PatchSet.apply [same object, edited in place]", "refused with PatchSetVerificationError")
+            else:
+                ctx.violated(rid, psc.methods["apply"], "apply after an in-place edit", f"raises {e.exc_name}")
+        # a workspace whose digest cannot be computed (a numpy array as a leaf passes pyhf's schema validation) never verifies
+        for what in ("verify", "apply"):
+            try:
+                odd = workspace()
+                odd["channels"][0]["samples"][0]["data"] = Obj("ndarray")
+                w.call_method(ps, what, [odd] + (["p1"] if what == "apply" else []))
+                ctx.violated(rid, psc.methods[what], f"{what} of a workspace whose digest cannot be computed", f"{what}() succeeds for a workspace that is not JSON-serialisable (an array-valued leaf): no digest was compared, yet verification is reported as passed" + (" and the patch is applied" if what == "apply" else ""), expected="an exception (the digest cannot equal the recorded one)")
+            except RaisedInFragment as e:
+                ctx.holds(rid, f"{PS}::PatchSet.{what} [digest not computable]", f"refused ({e.exc_name.split('.')[-1]})")
         try:
             w.call_method(ps, "apply", [workspace(), "nope"])
             ctx.violated(rid, psc.methods["apply"], "apply with an unknown key", "no InvalidPatchLookup")
